@@ -25,7 +25,9 @@ func Ints(t tbin.Type) []int64 {
 // Doubles is the finite double alphabet (every class named by the properties except NaN/Inf).
 func Doubles() []float64 {
 	return []float64{0, 1, -1.5, 0.1, 0.5, 100, 1e21, 1e-7, 1e20, 123456789.125, 5e-324, math.MaxFloat64, -math.MaxFloat64, 2.2250738585072014e-308, 2.225073858507201e-308,
-		1 << 53, 1<<53 + 2, 9007199254740993, 0.30000000000000004, 1e22, 1e23, 8.41e21, 3.141592653589793, -2.718281828459045e-10, 4.35, 1e-5, 1e-6, 123456789012345680000, 0.000001234}
+		1 << 53, 1<<53 + 2, 9007199254740993, 0.30000000000000004, 1e22, 1e23, 8.41e21, 3.141592653589793, -2.718281828459045e-10, 4.35, 1e-5, 1e-6, 123456789012345680000, 0.000001234,
+		// integral doubles on and next to the integer type boundaries (an integer fast path must not wrap)
+		1 << 31, 1<<31 - 1, 1 << 32, 1 << 62, 1 << 63, 9223372036854774784, 9223372036854777856, 1 << 64, 18446744073709549568, 1e19}
 }
 
 // NonFinite are the double classes with no JSON spelling.
